@@ -345,7 +345,7 @@ def check_cell_roundtrip(chk, ix):
                              "splitting on unescaped pipes disagree" % (cells, line, parsed), file=esc.file, line=esc.lineno, stmt="def escape_cell"))
 
 
-def check_tag_line(chk, ix):
+def check_tag_line(chk, ix, tier="quick"):
     """P9: a tag line read word by word (Parser.parse_tags on concrete lines, constant folding): '@word' is the tag
     'word' whatever characters it contains; a word starting with '#' ends the line; anything else is a ParserError."""
     chk.rule("P9", WHAT["P9"])
@@ -354,6 +354,27 @@ def check_tag_line(chk, ix):
     cases = [("@a @b", ["a", "b"]), ("  @a\t@b  ", ["a", "b"]), ("@a # comment @c", ["a"]), ("@a #c", ["a"]), ("@issue#123 @b", ["issue#123", "b"]),
              ("@a @b#x # trailing", ["a", "b#x"]), ("@a.b @c-d @e=f @g:3", ["a.b", "c-d", "e=f", "g:3"]), ("# only a comment", []),
              ("@a bad", "error"), ("bad", "error"), ("@a @@b", ["a", "@b"])]
+    # generated: every line of up to three words from a small word pool (thorough: also length 4)
+    import itertools as _it
+    pool = ["@a", "@b#x", "#c", "bad", "@@d", "@e.f-g=h:3", "#"]
+
+    def read(words):
+        tags = []
+        for w in words:
+            if w.startswith("@"):
+                tags.append(w[1:])
+            elif w.startswith("#"):
+                break
+            else:
+                return "error"
+        return tags
+    have = {c[0] for c in cases}
+    for n_ in (1, 2, 3) + ((4,) if tier == "thorough" else ()):
+        for ws in _it.product(pool, repeat=n_):
+            line = "  ".join(ws)
+            if line not in have:
+                have.add(line)
+                cases.append((line, read(ws)))
     for line, want in cases:
         made = []
         stubs = {"Tag": lambda i, s_, a, k, n: (made.append(a[0]), [(s_, "val", "TAG:" + str(a[0]))])[1],
